@@ -72,11 +72,12 @@ Proof. vm_compute. repeat split; congruence. Qed.
 Theorem c10_totals : forall cf lk now pc pd a0 s ops,
   good_cfg cf lk -> 0 <= l_target lk -> 0 <= l_coll lk -> tick_in_ok pc ->
   activate cf lk now pc pd = Ok a0 -> Forall op_ok ops ->
-  let f := run cf lk (mkLife s (Some a0) 0 0 0 0) ops in
+  let f := run cf lk (mkLife s (Some a0) 0 0 0) ops in
   0 <= f_paid f <= l_target lk /\ 0 <= f_recv f <= l_coll lk /\
   match f_a f with
-  | Some a => f_paid f + a_debt a = l_target lk /\ f_recv f + a_coll a = l_coll lk /\ 0 <= a_debt a /\ 0 <= a_coll a
-  | None => f_paid f + f_top f + f_short f = l_target lk /\ 0 <= f_top f /\ 0 <= f_short f
+  | Some a => f_paid f + a_debt a = l_target lk /\ f_recv f + a_coll a = l_coll lk /\ 0 <= a_debt a /\ 0 <= a_coll a /\
+              f_top f = 0
+  | None => f_paid f + f_top f = l_target lk /\ 0 <= f_top f
   end.
 Proof. exact totals. Qed.
 Print Assumptions c10_totals.
@@ -104,49 +105,98 @@ Theorem c10_bid_price_partial : forall cf lk a s who amt0 wd twa s' a' r,
                r_recv r = conv (c_dd cf) (dp_of lk twa) (a_debt a) (c_dc cf) (a_price a) + r_bonus r) /\
             (r_exh r = true -> r_recv r = a_coll a /\
                r_paid r = conv (c_dc cf) (a_price a) (a_coll a - r_bonus r) (c_dd cf) (dp_of lk twa) /\
-               r_short r = a_debt a - r_paid r /\ 0 <= r_topup r <= r_short r) /\
+               r_topup r = a_debt a - r_paid r /\ 0 <= r_topup r) /\
             r_bonus r = conv (c_dd cf) (dp_of lk twa) (a_bonus a) (c_dc cf) (a_price a)
   end.
 Proof. exact place_bid_amounts. Qed.
 Print Assumptions c10_bid_price_partial.
 
-(* Close completeness, per initiator type (0 vault, 2 external, otherwise lend), outside C10-F2:
-   the closing bid takes out of the auction account exactly this auction's remaining collateral and
-   the debt it had collected (so what is attributable to the auction drops to 0; externally
-   initiated auctions keep the penalty in the account, booked as auction-module fees), principal is
-   burned / sent to the initiator / to the lending pool, the penalty goes to collector + keeper,
-   unsold collateral to the owner. *)
+(* Close completeness, per initiator type (0 vault, 2 external, otherwise lend), for EVERY closing
+   bid (no exception class any more: fixes/C10-F2 and fixes/C10-F3 repaired the two defects that
+   used to be carved out here): what the bidder pays plus what the app reserve tops up is exactly
+   the outstanding debt; the closing bid takes out of the auction account exactly this auction's
+   remaining collateral and the debt it had collected (so what is attributable to the auction drops
+   to 0; externally initiated auctions keep the penalty net of the incentive in the account, booked
+   as auction-module fees); principal is burned / sent to the initiator / to the lending pool, the
+   penalty goes to collector + keeper (vault) resp. fee book + external keeper (external), unsold
+   collateral to the owner; the reserve account pays exactly the top-up. *)
 Theorem c10_close_complete : forall cf lk a s who amt0 wd twa s' r,
   good_cfg cf lk -> good_auction cf lk a -> 0 <= twa < 9223372036854775808 -> 0 <= l_fee lk -> 0 <= who ->
-  place_bid cf lk a s who amt0 wd twa = Ok (s', None, r) -> kf_C10_2 r = false ->
+  place_bid cf lk a s who amt0 wd twa = Ok (s', None, r) ->
   r_paid r + r_topup r = a_debt a /\
   led s' AUC_C = led s AUC_C - a_coll a /\
   led s' AUC_D - xfee s' = led s AUC_D - xfee s - (l_target lk - a_debt a) /\
   led s' OWN_C + led s' (BID_C who) = led s OWN_C + led s (BID_C who) + a_coll a /\
+  led s' LIQ_D = led s LIQ_D - r_topup r /\
   (l_init lk = 0 -> led s' BRN_D = led s BRN_D + (l_target lk - l_fee lk) /\
                     led s' COL_D + led s' KEE_D = led s COL_D + led s KEE_D + l_fee lk /\ xfee s' = xfee s) /\
-  (l_init lk = 2 -> led s' INI_D = led s INI_D + (l_target lk - l_fee lk) /\ xfee s' = xfee s + l_fee lk) /\
+  (l_init lk = 2 -> led s' INI_D = led s INI_D + (l_target lk - l_fee lk) + ext_incentive cf lk /\
+                    xfee s' = xfee s + (l_fee lk - ext_incentive cf lk) /\ 0 <= ext_incentive cf lk <= l_fee lk) /\
   (l_init lk <> 0 -> l_init lk <> 2 -> led s' POOL_D = led s POOL_D + l_target lk /\ xfee s' = xfee s).
 Proof. exact close_complete. Qed.
 Print Assumptions c10_close_complete.
 
-(* C10-F2: inside the class the clause fails.  Witness = the state of harness case 92 (seed 1): the
-   reserve holds 1000, the shortfall is 440072, nothing is transferred, the reserve record becomes
-   -439072 and the auction account ends 440072 short of the fees it has booked *)
-Theorem c10_close_complete_refuted : exists s' r,
-  place_bid w_cf w_lk w_au w_s 0 27429945 false 1000000 = Ok (s', None, r) /\
-  kf_C10_2 r = true /\ r_paid r = 8703243 /\ r_short r = 440072 /\ r_topup r = 0 /\
-  rsv s' = Some (-439072) /\
-  led s' AUC_D - xfee s' = led w_s AUC_D - xfee w_s - (l_target w_lk - a_debt w_au) - 440072.
-Proof. exact reserve_refuted. Qed.
-Print Assumptions c10_close_complete_refuted.
+(* The app reserve is touched only by the collateral-exhausted close; it is debited exactly the
+   shortfall, and only when the record covers it: a successful bid never leaves a negative record.
+   Hence an exhausted close against a reserve smaller than the shortfall is not a successful bid,
+   and by [step] (a failed message's cache context is dropped) nothing changes. *)
+Theorem c10_reserve_covers_shortfall : forall cf lk a s who amt wd twa s' a' r,
+  place_bid cf lk a s who amt wd twa = Ok (s', a', r) ->
+  (r_exh r = false -> r_topup r = 0 /\ rsv s' = rsv s) /\
+  (r_exh r = true -> exists rv, rsv s = Some rv /\ rsv s' = Some (rv - r_topup r) /\ 0 <= rv - r_topup r).
+Proof. exact reserve_spec. Qed.
+Print Assumptions c10_reserve_covers_shortfall.
 
-(* C10-F3: "settles completely" fails for externally initiated auctions of an app with a positive
-   keeper incentive: no bid can ever close them (the closing branch panics on the empty address) *)
-Theorem c10_external_close_refuted : forall cf lk a s who amt0 wd twa s' r,
-  kf_C10_3 cf lk = true -> place_bid cf lk a s who amt0 wd twa <> Ok (s', None, r).
-Proof. exact external_never_closes. Qed.
-Print Assumptions c10_external_close_refuted.
+(* the reserve record stays non-negative and backed by the liquidation module's balance over every
+   successful bid (evaluated on the implementation as holds_C10_reserve) *)
+Theorem c10_reserve_backed : forall cf lk a s who amt0 wd twa s' a' r rv,
+  good_cfg cf lk -> good_auction cf lk a -> 0 <= twa < 9223372036854775808 -> 0 <= l_fee lk -> 0 <= who ->
+  place_bid cf lk a s who amt0 wd twa = Ok (s', a', r) ->
+  rsv s = Some rv -> 0 <= rv <= led s LIQ_D ->
+  exists rv', rsv s' = Some rv' /\ 0 <= rv' <= led s' LIQ_D /\ rv - rv' = led s LIQ_D - led s' LIQ_D.
+Proof. exact reserve_backed. Qed.
+Print Assumptions c10_reserve_backed.
+
+(* a partial bid moves only the bidder's and the auction account's balances, by the amounts of
+   the bid; with c10_bid_price_partial: the account keeps exactly the auction's remaining collateral
+   and the debt collected so far *)
+Theorem c10_partial_bid_ledger : forall cf lk a s who amt0 wd twa s' b r,
+  good_cfg cf lk -> good_auction cf lk a -> 0 <= twa < 9223372036854775808 ->
+  place_bid cf lk a s who amt0 wd twa = Ok (s', Some b, r) ->
+  xfee s' = xfee s /\ rsv s' = rsv s /\
+  forall k, led s' k = led s k + delta k (BID_D who) AUC_D (r_paid r) + delta k AUC_C (BID_C who) (r_recv r).
+Proof. exact partial_ledger. Qed.
+Print Assumptions c10_partial_bid_ledger.
+
+(* regression, C10-F2 (fixed): the state of harness corpus case 1 - reserve 1000, shortfall 440072.
+   Before the repair the bid succeeded with nothing transferred, the reserve record went to -439072
+   and the auction account ended 440072 short of its booked fees.  Now the bid is rejected
+   (ErrorInvalidAppOrAssetData) and the life is unchanged ... *)
+Example c10_short_reserve_rejected :
+  place_bid w_cf w_lk w_au (w_s 1000) 0 27429945 false 1000000 = Err 3 /\
+  forall p rc t, step w_cf w_lk (mkLife (w_s 1000) (Some w_au) p rc t) (Bid 0 27429945 false 1000000)
+                 = mkLife (w_s 1000) (Some w_au) p rc t.
+Proof. exact reserve_short_rejected. Qed.
+
+(* ... and with a reserve that covers the shortfall the same bid closes, fully backed (non-vacuity
+   of the exhausted branch of c10_close_complete) *)
+Example c10_covered_reserve_closes :
+  exists s' r, place_bid w_cf w_lk w_au (w_s 440072) 0 27429945 false 1000000 = Ok (s', None, r) /\
+    r_exh r = true /\ r_paid r = 8703243 /\ r_topup r = 440072 /\ rsv s' = Some 0 /\ led s' LIQ_D = 0 /\
+    led s' INI_D = 8313000 /\ xfee s' = 831300 /\ led s' AUC_D = 831300 /\ led s' AUC_C = 0.
+Proof. exact reserve_covered_closes. Qed.
+
+(* regression, C10-F3 (fixed): the state of harness corpus case 0 - externally initiated auction of
+   an app with KeeeperIncentive 0.1.  Before the repair every closing bid panicked (incentive sent to
+   the empty InternalKeeperAddress); now the bid closes, the external keeper gets target - penalty
+   plus the incentive 4487, the rest of the penalty (40385) is booked and backed, nothing goes to the
+   empty address *)
+Example c10_external_closes :
+  exists s' r, place_bid x_cf x_lk x_au x_s 0 493593 false 1000000 = Ok (s', None, r) /\
+    ext_incentive x_cf x_lk = 4487 /\ r_paid r = 493592 /\ r_recv r = 329061 /\
+    led s' INI_D = 448720 + 4487 /\ xfee s' = 40385 /\ led s' AUC_D = 40385 /\ led s' AUC_C = 0 /\
+    led s' OWN_C = 238939 /\ led s' NUL_D = 0.
+Proof. exact external_closes. Qed.
 
 (* non-vacuity: a vault-initiated auction (target 1120000 = 1000000 + 12 %, internal keeper, 10 %
    incentive) takes a partial bid, a tick, and a closing bid; everything is distributed *)
@@ -155,7 +205,7 @@ Definition ex_lk : locked := mkLk 1000000 1120000 120000 0 0 true false.
 Definition ex_led : ledger := fun k => if k =? 0 then 1000000 else if k =? 11 then 5000000 else if k =? 13 then 5000000 else 0.
 Example c10_nonvacuous :
   exists a0, activate ex_cf ex_lk 0 (Some 1200000) (Some 1000000) = Ok a0 /\
-  let f := run ex_cf ex_lk (mkLife (mkS ex_led None 0) (Some a0) 0 0 0 0)
+  let f := run ex_cf ex_lk (mkLife (mkS ex_led None 0) (Some a0) 0 0 0)
                [Bid 0 400000 false 1000000; Tick 600 (Some 1200000) (Some 1000000); Bid 1 9999999 false 1000000] in
   f_a f = None /\ f_paid f = 1120000 /\ f_recv f = 804092 /\
   led (f_s f) AUC_C = 0 /\ led (f_s f) AUC_D = 0 /\ led (f_s f) BRN_D = 1000000 /\
